@@ -328,7 +328,7 @@ impl<S: ShapeOps> AnySession for Sess<S> {
                 out
             }
             "xadv" => match self.slots.get_mut(&w[1].parse().unwrap()) {
-                Some(Slot::AnD(a)) => { a.advance(fb(w[2])); show_anim_dyn::<S>(a) }
+                Some(Slot::AnD(a)) => { in_animator_call(|| a.advance(fb(w[2]))); show_anim_dyn::<S>(a) }
                 _ => "bad-slot".into(),
             },
             "merge2" => {
@@ -370,14 +370,14 @@ impl<S: ShapeOps> AnySession for Sess<S> {
             "adv" => {
                 let slot: usize = w[1].parse().unwrap();
                 match self.slots.get_mut(&slot) {
-                    Some(Slot::An(a)) => { a.advance(fb(w[2])); show_anim::<S>(a) }
+                    Some(Slot::An(a)) => { in_animator_call(|| a.advance(fb(w[2]))); show_anim::<S>(a) }
                     _ => "bad-slot".into(),
                 }
             }
             "set" => {
                 let slot: usize = w[1].parse().unwrap();
                 match self.slots.get_mut(&slot) {
-                    Some(Slot::An(a)) => { a.set_state(&st_of(w[2].parse().unwrap())); show_anim::<S>(a) }
+                    Some(Slot::An(a)) => { in_animator_call(|| a.set_state(&st_of(w[2].parse().unwrap()))); show_anim::<S>(a) }
                     _ => "bad-slot".into(),
                 }
             }
